@@ -540,6 +540,54 @@ theorem ws_frames_states_ok (mode : Mode) (accept : Bytes) (chunks : List Bytes)
   have := feed_upok mode accept chunks st ⟨hup, h⟩ st' he
   ⟨this.1, this.2, RdOk_mono this.2 (by decide)⟩
 
+/-- … and on a whole connection: after EVERY byte stream in EVERY segmentation, HTTP upgrade included, the state of an
+open session is `RdOk` (so `ws_close_drain_in_bounds` applies whenever the application calls `coap_ws_close`) -/
+theorem ws_reader_states_ok (mode : Mode) (accept : Bytes) (chunks : List Bytes) (st' : Coap.M.Ws.St)
+    (he : (Coap.M.Ws.feed mode accept {} chunks).2.1 = .open st') :
+    RdOk Coap.M.Ws.rxBuf st' ∧ RdOk drainBuf st' :=
+  have := feed_connOk mode accept chunks st' he
+  ⟨this.1, RdOk_mono this.1 (by decide)⟩
+
+/-- every way a `coap_ws_read` call (any state, any buffer size) closes the session by itself: Close frame header
+completed, header refused with 1002/1003 and left in `rd_header`, or frame refused with 1009 -/
+theorem ws_read_closed_cases (mode : Mode) (datalen fuel : Nat) (st : Coap.M.Ws.St) (av : Bytes)
+    (h : (readFrame mode datalen fuel st av).1 = .closed) :
+    recvCloseOf mode .closed (readFrame mode datalen fuel st av).2.1 = true ∨
+    Refused mode (readFrame mode datalen fuel st av).2.1 ∨
+    ((readFrame mode datalen fuel st av).2.1.allHdrIn = true ∧ (readFrame mode datalen fuel st av).2.1.dataSize > datalen) :=
+  readFrame_closed_cases mode datalen fuel st av h
+
+/-- the reader's own `coap_ws_close` (model `selfClose`, tied to the code by the `wsself` lines), for EVERY reader
+state and EVERY chunk: either a Close frame was received (no drain at all), or the drain starts from a refused header
+(1002/1003: `recv_close` stays 0, the header is refused again by every call, at most the free room of `rd_header` is read,
+at most 5 calls) or from a refused frame (1009: `recv_close` stays 0, 5 calls returning -1 if bytes are pending, none
+otherwise, NOTHING read, state untouched).  In each case the function returns and the session is closed. -/
+theorem ws_self_close_classified (mode : Mode) (accept : Bytes) (st : Coap.M.Ws.St) (chunk : Bytes)
+    (r : Bool × Coap.M.Ws.St × Bytes × Nat) (h : selfClose mode accept st chunk = some r) :
+    ∃ st' av', refusalPoint mode accept (6 * (chunk.length + 1)) 0 st chunk = some (st', av') ∧
+      ((recvCloseOf mode .closed st' = true ∧ r = (true, st', av', 0)) ∨
+       (Refused mode st' ∧ r.1 = false ∧ Refused mode r.2.1 ∧
+          av'.length ≤ r.2.2.1.length + (fsCap - st'.rdHeader.length) ∧ r.2.2.2 ≤ 5) ∨
+       (st'.allHdrIn = true ∧ st'.dataSize > 1472 ∧ r = (false, st', av', if av'.length = 0 then 0 else 5))) :=
+  selfClose_cases mode accept st chunk r h
+
+/-- the three classes on concrete chunks (client side, handshake done): Close frame in front of an empty frame —
+`recv_close`, no drain, 2 bytes never read; a Ping followed by a Close frame in the same header read — refused, the
+Close frame is never looked at, nothing left on the socket, no call; a 1473-byte frame header with 20 more bytes —
+refused, 5 calls, the 10 bytes behind the header read stay unread -/
+example : (selfClose .client [] { up := true } [0x88, 0, 0x82, 0]).map (fun r => (r.1, r.2.2.1.length, r.2.2.2)) =
+    some (true, 0, 0) := by decide +kernel
+example : (selfClose .client [] { up := true } ([0x88, 0] ++ List.replicate 20 7)).map (fun r => (r.1, r.2.2.1.length, r.2.2.2)) =
+    some (true, 8, 0) := by decide +kernel
+example : (selfClose .client [] { up := true } [0x89, 0, 0x88, 0]).map (fun r => (r.1, r.2.1.rdHeader, r.2.2.1.length, r.2.2.2)) =
+    some (false, [0x89, 0, 0x88, 0], 0, 0) := by decide +kernel
+example : (selfClose .client [] { up := true } ([0x82, 0x7e, 0x05, 0xc1] ++ List.replicate 20 7)).map
+    (fun r => (r.1, r.2.1.dataSize, r.2.2.1.length, r.2.2.2)) = some (false, 1473, 10, 5) := by decide +kernel
+/-- a server: unmasked frame with 30 bytes behind it: refused (1002), the drain tops `rd_header` up … nothing more: all
+14 bytes were already in, 18 bytes stay unread after 5 calls -/
+example : (selfClose .server [] { up := true } ([0x82, 2, 0, 1] ++ List.replicate 28 7)).map
+    (fun r => (r.1, r.2.1.rdHeader.length, r.2.2.1.length, r.2.2.2)) = some (false, 14, 18, 5) := by decide +kernel
+
 /-- observation 1 of round 2 as a theorem: once a `coap_ws_read` call has emptied the socket the loop only waits (no
 further call), whatever is left in `rd_header` — select() looks at the socket, not at `rd_header` -/
 theorem ws_close_drain_socket_empty (mode : Mode) (c : Nat) (st st' : Coap.M.Ws.St) (av : Bytes) (ret : Ret) (hav : av ≠ [])
